@@ -175,6 +175,7 @@ func ParseNDStream(r io.Reader, res chan<- Stream, reuse <-chan *ParsedJson) {
 
 			if len(tmp) > 0 {
 				result := make(chan Stream, 0)
+				verifEvent(verifEvChunkQueued, nil, verifAddr(tmp), uint64(len(tmp)), nil)
 				queue <- result
 				go func() {
 					var pj internalParsedJson
@@ -190,6 +191,7 @@ func ParseNDStream(r io.Reader, res chan<- Stream, reuse <-chan *ParsedJson) {
 					default:
 					}
 					parseErr := pj.parseMessage(tmp, true)
+					verifEvent(verifEvChunkParsed, &pj, verifAddr(tmp), verifB2U(parseErr != nil), nil)
 					if parseErr != nil {
 						result <- Stream{
 							Value: nil,
